@@ -6,8 +6,8 @@ interleaving, sequentially consistent.  The queue is abstracted to two counters 
 the release of the popped message; `msgs`: messages that can be popped), which is what M-QUEUE-C proves about it
 (Full exactly when full, Empty exactly when empty).  `Event` and `DiatomicWaker` are external crates: their protocol
 is modelled from their source (async-event 0.2.1 `WaitUntil::poll`, `WaitSet::{insert, remove, cancel, notify}`;
-diatomic-waker 0.2.3 `WaitUntil::poll`, `notify`), not verified.  A pending send may be cancelled at any time (`sDrop`: the future is dropped, its notifier cancelled).  Closing is not in
-this model.
+diatomic-waker 0.2.3 `WaitUntil::poll`, `notify`), not verified.  A pending send may be cancelled at any time (`sDrop`: the future is dropped, its notifier cancelled).  The mailbox may be closed by its owner while the receiver is not receiving (`Receiver::drop`: close the
+queue, then `notify_all`); sends then fail.
 -/
 namespace NexoVerif.Chan
 
@@ -18,6 +18,7 @@ inductive SPc
   | ins         -- predicate failed: about to insert the notifier in the wait set
   | try2        -- inserted: about to evaluate the predicate again
   | cancel      -- predicate succeeded at the second attempt: about to `cancel` the notifier
+  | cancelErr   -- the queue was found closed at the second attempt: about to `cancel` the notifier, then fail
   | pending     -- returned `Pending`
   | notifyRecv  -- pushed: about to `receiver_signal.notify()`
 deriving Repr, DecidableEq, Inhabited
@@ -47,6 +48,8 @@ structure St where
   /-- the receiver notifies a sender after every pop (read from the source); `false`: only when the pop left the
   full state -/
   always : Bool := true
+  closed : Bool := false                    -- the queue is closed (`Receiver::drop` / `close`)
+  cpc : Bool := false                       -- the closing thread has closed the queue and is about to `notify_all`
 
 def upd {α} (f : Nat → α) (i : Nat) (v : α) : Nat → α := fun j => if j = i then v else f j
 @[simp] theorem upd_same {α} (f : Nat → α) (i : Nat) (v : α) : upd f i v i = v := by simp [upd]
@@ -63,6 +66,11 @@ inductive Label
   | sTry2 (i : Nat)
   | sCancel (i : Nat) (k : Nat) -- `k`: the notifier popped from the wait set if this one had been notified meanwhile
   | sNotify (i : Nat)
+  | sTry1Closed (i : Nat)       -- the first attempt finds the queue closed: the send fails
+  | sTry2Closed (i : Nat)       -- the second attempt finds the queue closed
+  | sCancelErr (i : Nat) (k : Nat)
+  | closeQ                      -- `Receiver::drop`: the queue is closed (the receiver is not receiving)
+  | closeNotify                 -- … then `sender_signal.notify_all()`
   | sDrop (i : Nat) (k : Nat)   -- a pending send is cancelled (its future is dropped): `WaitUntil::drop` cancels the notifier
   | rBegin
   | rRepoll
@@ -85,7 +93,7 @@ def step (l : Label) (s : St) : Option St :=
   | .sRemove i =>
     if i < s.n ∧ s.spc i = .rm then some { s with inset := upd s.inset i false, spc := upd s.spc i .try1 } else none
   | .sTry1 i =>
-    if i < s.n ∧ s.spc i = .try1 then
+    if i < s.n ∧ s.spc i = .try1 ∧ s.closed = false then
       if s.occ < s.cap then
         some { s with occ := s.occ + 1, msgs := s.msgs + 1, pushed := s.pushed + 1, spc := upd s.spc i .notifyRecv }
       else some { s with spc := upd s.spc i .ins }
@@ -93,7 +101,7 @@ def step (l : Label) (s : St) : Option St :=
   | .sInsert i =>
     if i < s.n ∧ s.spc i = .ins then some { s with inset := upd s.inset i true, spc := upd s.spc i .try2 } else none
   | .sTry2 i =>
-    if i < s.n ∧ s.spc i = .try2 then
+    if i < s.n ∧ s.spc i = .try2 ∧ s.closed = false then
       if s.occ < s.cap then
         some { s with occ := s.occ + 1, msgs := s.msgs + 1, pushed := s.pushed + 1, spc := upd s.spc i .cancel }
       else some { s with spc := upd s.spc i .pending }
@@ -108,6 +116,22 @@ def step (l : Label) (s : St) : Option St :=
         some { s with inset := upd s.inset k false, spc := upd s.spc i .notifyRecv }
       else none
     else none
+  | .sTry1Closed i =>
+    if i < s.n ∧ s.spc i = .try1 ∧ s.closed = true then some { s with spc := upd s.spc i .idle } else none
+  | .sTry2Closed i =>
+    if i < s.n ∧ s.spc i = .try2 ∧ s.closed = true then some { s with spc := upd s.spc i .cancelErr } else none
+  | .sCancelErr i k =>
+    if i < s.n ∧ s.spc i = .cancelErr then
+      if s.inset i = true then some { s with inset := upd s.inset i false, spc := upd s.spc i .idle }
+      else if setEmpty s then some { s with spc := upd s.spc i .idle }
+      else if k < s.n ∧ s.inset k = true then
+        some { s with inset := upd s.inset k false, spc := upd s.spc i .idle }
+      else none
+    else none
+  | .closeQ =>
+    if s.closed = false ∧ s.rpc = .handler then some { s with closed := true, cpc := true } else none
+  | .closeNotify =>
+    if s.cpc = true then some { s with inset := fun _ => false, cpc := false } else none
   | .sDrop i k =>
     if i < s.n ∧ s.spc i = .pending then
       if s.inset i = true then some { s with inset := upd s.inset i false, spc := upd s.spc i .idle }
@@ -119,7 +143,7 @@ def step (l : Label) (s : St) : Option St :=
     else none
   | .sNotify i =>
     if i < s.n ∧ s.spc i = .notifyRecv then some { s with rreg := false, spc := upd s.spc i .idle } else none
-  | .rBegin => if s.rpc = .handler then some { s with rpc := .try1 } else none
+  | .rBegin => if s.rpc = .handler ∧ s.closed = false then some { s with rpc := .try1 } else none
   | .rRepoll => if s.rpc = .pending then some { s with rpc := .try1 } else none
   | .rTry1 =>
     if s.rpc = .try1 then
@@ -152,9 +176,10 @@ def Sleeping (s : St) (i : Nat) : Prop := i < s.n ∧ s.spc i = .pending ∧ s.i
 /-- the receiver sleeps: it returned `Pending` and its waker is still registered -/
 def RSleeping (s : St) : Prop := s.rpc = .pending ∧ s.rreg = true
 
-/-- nothing is in progress: every sender is idle or sleeping, the receiver sleeps or is not receiving -/
+/-- nothing is in progress: every sender is idle or sleeping, the receiver sleeps or is not receiving, nobody is in the
+middle of closing the mailbox -/
 def Quiescent (s : St) : Prop :=
   (∀ i, i < s.n → s.spc i = .idle ∨ (s.spc i = .pending ∧ s.inset i = true)) ∧
-  (s.rpc = .handler ∨ (s.rpc = .pending ∧ s.rreg = true))
+  (s.rpc = .handler ∨ (s.rpc = .pending ∧ s.rreg = true)) ∧ s.cpc = false
 
 end NexoVerif.Chan
